@@ -16,7 +16,7 @@ def CG (t : Ty) : Prop := Ty.WF cfg t ∧ t.TA sfh
 
 theorem cg_leaf (t : Ty) (h : match t with
     | .any | .undef | .dflt | .scalar | .scalarData | .numeric | .data | .richData | .str | .bin | .int _ | .float _ _ | .bool _
-    | .tspan _ | .tstamp _ | .strSz _ | .strVal _ | .pattern _ | .regexp _ | .coll _ | .object _ => True
+    | .tspan _ | .tstamp _ | .strSz _ | .strVal _ | .pattern _ | .regexp _ | .runtime _ _ _ | .coll _ | .object _ => True
     | _ => False) : CG cfg sfh t := by
   cases t <;> simp only [] at h <;> (first | contradiction | simp [CG, Ty.WF, Ty.TA])
 
@@ -359,6 +359,19 @@ theorem common_all (hl : ∀ s, (cfg.lower s).length = s.length) (hidem : ∀ s,
       rename_i y
       obtain ⟨g, u1, u2⟩ := ih x y ((cg_iterable cfg sfh).1 ha) ((cg_iterable cfg sfh).1 hb)
       exact ⟨(cg_iterable cfg sfh).2 g, mono_iterable cfg sfh _ _ u1, mono_iterable cfg sfh _ _ u2⟩
+    case runtime rt nm pt =>
+      -- `commonType(Runtime[rt, ..], Runtime[rt', ..])` = `Runtime[rt]` when the runtimes agree, else the default Runtime
+      cases b <;> simp only [] <;> (try exact tl)
+      rename_i rt' nm' pt'
+      by_cases e : rt = rt'
+      · subst e
+        simp only [beq_self_eq_true, if_true]
+        exact ⟨cg_leaf cfg sfh _ trivial, viaRecv' cfg sfh rfl (by rw [recv_runtime_eq]; exact rtAcc_runtime rt nm pt),
+          viaRecv' cfg sfh rfl (by rw [recv_runtime_eq]; exact rtAcc_runtime rt nm' pt')⟩
+      · have hne : (rt == rt') = false := by simpa using e
+        simp only [hne, Bool.false_eq_true, if_false]
+        exact ⟨cg_leaf cfg sfh _ trivial, viaRecv' cfg sfh rfl (by rw [recv_runtime_eq]; exact rtAcc_default rt nm pt),
+          viaRecv' cfg sfh rfl (by rw [recv_runtime_eq]; exact rtAcc_default rt' nm' pt')⟩
     case iterator x =>
       cases b <;> simp only [] <;> (try exact tl)
       rename_i y
